@@ -187,6 +187,76 @@ mut("c15_cell_counter", "C15", [(TZ, """pub struct TimeZoneSettings<'a> {
     /// Possible system timezone directories
     directories: &'a [&'a str],"""), (TZ, "TimeZoneSettings { directories: Self::DEFAULT_DIRECTORIES, read_file_fn: Self::DEFAULT_READ_FILE_FN }", "TimeZoneSettings { hits: core::cell::Cell::new(0), directories: Self::DEFAULT_DIRECTORIES, read_file_fn: Self::DEFAULT_READ_FILE_FN }"), (TZ, "        Self { directories, read_file_fn }", "        Self { hits: core::cell::Cell::new(0), directories, read_file_fn }")], "Cell inside a public type (loses Sync)")
 
+mut("c15_env_probe", "C15", [(TZ, """    pub fn parse_posix_tz(&self, tz_string: &str) -> Result<TimeZone, crate::Error> {
+        if tz_string.is_empty() {""", """    pub fn parse_posix_tz(&self, tz_string: &str) -> Result<TimeZone, crate::Error> {
+        #[cfg(feature = "std")]
+        if std::env::var_os("TZ_RS_TRACE").is_some() {
+            std::eprintln!("tz-rs: resolving {tz_string:?}");
+        }
+        if tz_string.is_empty() {""")], "an environment variable is consulted on every resolution (its value never matters in the runs)")
+mut("c15_clock_in_find", "C15", [(DM, """        let mut found_date_time_list = FoundDateTimeList::default();
+        find_date_time(&mut found_date_time_list, year,""", """        let mut found_date_time_list = FoundDateTimeList::default();
+        #[cfg(feature = "std")]
+        {
+            // "most searches are about the present": remember whether the searched year is the current one
+            let this_year = std::time::SystemTime::now().duration_since(std::time::UNIX_EPOCH).map(|d| 1970 + (d.as_secs() / 31_556_952) as i32).unwrap_or(1970);
+            if year == this_year && month == 0 {
+                return Ok(found_date_time_list);
+            }
+        }
+        find_date_time(&mut found_date_time_list, year,""")], "the allocating search reads the real clock (result unaffected for valid months)")
+mut("c20_exists_probe", "C20", [(TZ, """            self.directories
+                .iter()
+                .find_map(""", """            #[cfg(feature = "std")]
+            let _ = std::path::Path::new("/usr/share/zoneinfo").exists();
+            self.directories
+                .iter()
+                .find_map(""")], "the real file system is probed beside the injected reader")
+mut("c15_arc_mutex_field", "C15", [(TZ, """    /// Extra transition rule applicable after the last transition
+    extra_rule: Option<TransitionRule>,
+}
+
+#[cfg(feature = "alloc")]
+impl TimeZone {""", """    /// Extra transition rule applicable after the last transition
+    extra_rule: Option<TransitionRule>,
+    /// Last lookup (shared by clones)
+    memo: Memo,
+}
+
+/// Last lookup of a zone
+#[cfg(feature = "alloc")]
+#[derive(Debug, Clone, Default)]
+struct Memo(alloc::sync::Arc<MemoCell>);
+
+#[cfg(feature = "alloc")]
+#[derive(Debug, Default)]
+struct MemoCell {
+    time: core::sync::atomic::AtomicI64,
+    index: core::sync::atomic::AtomicUsize,
+}
+
+#[cfg(feature = "alloc")]
+impl PartialEq for Memo {
+    fn eq(&self, _: &Self) -> bool {
+        true
+    }
+}
+
+#[cfg(feature = "alloc")]
+impl Eq for Memo {}
+
+#[cfg(feature = "alloc")]
+impl TimeZone {"""), (TZ, "        Ok(Self { transitions, local_time_types, leap_seconds, extra_rule })", "        Ok(Self { transitions, local_time_types, leap_seconds, extra_rule, memo: Memo::default() })"), (TZ, "        Self { transitions: Vec::new(), local_time_types: vec![LocalTimeType::utc()], leap_seconds: Vec::new(), extra_rule: None }", "        Self { transitions: Vec::new(), local_time_types: vec![LocalTimeType::utc()], leap_seconds: Vec::new(), extra_rule: None, memo: Memo::default() }"), (TZ, "        Ok(Self { transitions: Vec::new(), local_time_types: vec![LocalTimeType::with_ut_offset(ut_offset)?], leap_seconds: Vec::new(), extra_rule: None })", "        Ok(Self { transitions: Vec::new(), local_time_types: vec![LocalTimeType::with_ut_offset(ut_offset)?], leap_seconds: Vec::new(), extra_rule: None, memo: Memo::default() })"), (TZ, """    pub fn find_local_time_type(&self, unix_time: i64) -> Result<&LocalTimeType, TzError> {
+        self.as_ref().find_local_time_type(unix_time)
+    }""", """    pub fn find_local_time_type(&self, unix_time: i64) -> Result<&LocalTimeType, TzError> {
+        use core::sync::atomic::Ordering;
+        let r = self.as_ref().find_local_time_type(unix_time)?;
+        // statistics only: remember the last answer inside the zone (behind an Arc, so the zone stays Send + Sync)
+        self.memo.0.time.store(unix_time, Ordering::Relaxed);
+        self.memo.0.index.store(self.local_time_types.iter().position(|x| core::ptr::eq(x, r)).unwrap_or(usize::MAX), Ordering::Relaxed);
+        Ok(r)
+    }""")], "hidden mutable state behind an Arc inside TimeZone, written by a &self method (results unaffected)")
+
 # ---------------- C07
 mut("c07_unchecked_add", "C07", [(DM, """        let unix_time_with_offset = match unix_time.checked_add(local_time_type.ut_offset() as i64) {
             Some(unix_time_with_offset) => unix_time_with_offset,
